@@ -37,13 +37,21 @@ structure Watcher where
   /-- identity of the callback function: what the callback itself can log.  Two registrations of the
   same function with the same options are *equal* as Python namedtuples but distinct watchers. -/
   cb : Nat
+  /-- what is watched: 0 = the parameter's value, k > 0 = the k-th watchable Parameter attribute (slot) -/
+  what : Nat := 0
   deriving Repr, DecidableEq
+
+/-- shorthand for examples: a value watcher whose callback identity is its id -/
+def mkW (id : Nat) (params : List Nat) (onlychanged queued : Bool) (precedence : Int) (body : Nat) : Watcher :=
+  { id := id, params := params, onlychanged := onlychanged, queued := queued, precedence := precedence,
+    body := body, cb := id }
 
 /-- a raw event (`type=None`) -/
 structure Ev where
   name : Nat
   old : Int
   new : Int
+  what : Nat := 0
   deriving Repr, DecidableEq
 
 inductive EvType | set | changed | triggered
@@ -55,10 +63,12 @@ structure TEv where
   old : Int
   new : Int
   type : EvType
+  what : Nat := 0
   deriving Repr, DecidableEq
 
 inductive Stmt
   | set (p : Nat) (v : Int)                         -- obj.p = v
+  | setSlot (p : Nat) (k : Nat) (v : Int)           -- obj.param.p.<slot k> = v   (a Parameter attribute)
   | update (kvs : List (Nat × Int))                 -- obj.param.update(...)
   | updateCtx (kvs : List (Nat × Int)) (body : List Stmt)   -- with obj.param.update(...): body
   | trigger (ps : List Nat)                         -- obj.param.trigger(...)
@@ -99,6 +109,8 @@ structure World where
   queued : List Watcher        -- `_state_watchers`
   /-- Event parameters whose `_mode` is currently 'set' (all others are in 'set-reset') -/
   setMode : List Nat := []
+  /-- values of the watchable Parameter attributes, keyed by (parameter, slot) -/
+  slotVals : List ((Nat × Nat) × Int) := []
   ncalls : Nat := 0            -- number of callback invocations so far (ghost)
   deriving Repr
 
@@ -129,21 +141,34 @@ def insertByPrec (x : Watcher) : List Watcher → List Watcher
 /-- `sorted(watchers, key=lambda w: w.precedence)` (stable) -/
 def sortByPrec (l : List Watcher) : List Watcher := l.foldr insertByPrec []
 
-/-- watchers registered for parameter `p`, registration order -/
-def regsFor (w : World) (p : Nat) : List Watcher := w.regs.filter (fun x => x.params.contains p)
+/-- value watchers registered for parameter `p`, registration order -/
+def regsFor (w : World) (p : Nat) : List Watcher := w.regs.filter (fun x => x.params.contains p && x.what == 0)
+
+/-- watchers of slot `k` (k > 0) of parameter `p`, registration order -/
+def regsForSlot (w : World) (p k : Nat) : List Watcher :=
+  w.regs.filter (fun x => x.params.contains p && x.what == k)
+
+def getSlot (w : World) (p k : Nat) : Int :=
+  match w.slotVals.find? (fun e => e.1 == (p, k)) with
+  | some e => e.2
+  | none => 0
+
+def setSlotVal (l : List ((Nat × Nat) × Int)) (p k : Nat) (v : Int) : List ((Nat × Nat) × Int) :=
+  ((p, k), v) :: l.filter (fun e => e.1 != (p, k))
 
 def evType (trig : Bool) (wt : Watcher) : EvType :=
   if trig then .triggered else if wt.onlychanged then .changed else .set
 
 def typed (trig : Bool) (wt : Watcher) (e : Ev) : TEv :=
-  { name := e.name, old := e.old, new := e.new, type := evType trig wt }
+  { name := e.name, old := e.old, new := e.new, type := evType trig wt, what := e.what }
 
 /-- the last queued event for a name (`OrderedDict([((name, what), event) …])` keeps the last) -/
-def lastFor (dict : List Ev) (name : Nat) : Option Ev := dict.reverse.find? (fun e => e.name = name)
+def lastFor (dict : List Ev) (name : Nat) (what : Nat := 0) : Option Ev :=
+  dict.reverse.find? (fun e => e.name = name && e.what = what)
 
 /-- the events a watcher receives at a flush: in the order of its own `parameter_names` -/
 def evsFor (trig : Bool) (wt : Watcher) (dict : List Ev) : List TEv :=
-  wt.params.filterMap (fun n => (lastFor dict n).map (typed trig wt))
+  wt.params.filterMap (fun n => (lastFor dict n wt.what).map (typed trig wt))
 
 def hasId (l : List Watcher) (id : Nat) : Bool := l.any (fun x => x.id = id)
 
@@ -174,6 +199,7 @@ inductive Call
   | stmt (s : Stmt)
   | setAttr (p : Nat) (v : Int)
   | setPlain (p : Nat) (v : Int)
+  | setSlot (p : Nat) (k : Nat) (v : Int)
   | dispatch (ws : List Watcher) (ev : Ev)
   | callWatcher (wt : Watcher) (ev : Ev)
   | exec (wt : Watcher) (evs : List TEv) (viaFlush : Bool)
@@ -204,6 +230,9 @@ def run (c : Cfg) : Nat → Call → World → Res × World × List Item
     | .stmt (.set p v) =>
       let (r, w1, o) := run c f (.setAttr p v) w
       (r, w1, [.stmt "set" p (getVal w p) v w.batch w.trigger ((regsFor w p).map (·.id)) o r])
+    | .stmt (.setSlot p k v) =>
+      let (r, w1, o) := run c f (.setSlot p k v) w
+      (r, w1, [.stmt s!"setSlot{k}" p (getSlot w p k) v w.batch w.trigger ((regsForSlot w p k).map (·.id)) o r])
     | .stmt (.update kvs) =>
       let (r, w1, o) := run c f (.update (dedupKeys kvs)) w
       (r, w1, [.stmt "update" 0 0 0 w.batch w.trigger [] (keyNodes w (dedupKeys kvs) w.trigger ++ o) r])
@@ -290,6 +319,23 @@ def run (c : Cfg) : Nat → Call → World → Res × World × List Item
               let (r3, w3, o3) := run c f .flush w2
               let r := match r3 with | .oof => .oof | _ => r1.andThen r3
               (r, w3, o1 ++ o3)
+    | .setSlot p k v =>
+      -- `Parameter.__setattr__` + `_trigger_event`: store, then the slot's watchers in REGISTRATION
+      -- order (not sorted), finally flush iff the batching flag is off
+      let old := getSlot w p k
+      let w1 := { w with slotVals := setSlotVal w.slotVals p k v }
+      let ws := regsForSlot w p k
+      if ws.isEmpty then (.ok, w1, [])
+      else
+        let (r1, w2, o1) := run c f (.dispatch ws { name := p, old := old, new := v, what := k }) w1
+        match r1 with
+        | .oof => (.oof, w2, [])
+        | _ =>
+          if w2.batch then (r1, w2, o1)
+          else
+            let (r3, w3, o3) := run c f .flush w2
+            let r := match r3 with | .oof => .oof | _ => r1.andThen r3
+            (r, w3, o1 ++ o3)
     | .dispatch [] _ => (.ok, w, [])
     | .dispatch (wt :: rest) ev =>
       match run c f (.callWatcher wt ev) w with
